@@ -787,10 +787,27 @@ def variable_name_repeats_in_chain(rng, s, b):
     nested = [g for g in s["groups"] if g["ctx"] is not None]
     if not nested:
         return None
-    h = rng.choice(nested)
-    parent = next(g for g in s["groups"] if g["id"] == h["ctx"][1])
-    h["var"] = parent["var"]
-    return "nested thread group reuses the variable name of its enclosing group"
+    by_id = {g["id"]: g for g in s["groups"]}
+    order = {g["id"]: k for k, g in enumerate(s["groups"])}
+    cands, special = [], []
+    for h in nested:
+        chain = [by_id[i] for i in _chain(s, h["ctx"][1]) if i in by_id]        # enclosing groups, innermost first
+        below = h
+        for depth, A in enumerate(chain):
+            cands.append((h, A, depth))
+            # `below` is the child of A on the way down to h: does A have an EARLIER declared child with nested groups of its own?
+            sibs = [g for g in s["groups"] if g["ctx"] == ("group", A["id"]) and g is not below and order[g["id"]] < order[below["id"]]]
+            if any(any(x["ctx"] == ("group", sb["id"]) for x in s["groups"]) for sb in sibs) or depth >= 1:
+                special.append((h, A, depth))
+            below = A
+    h, A, depth = rng.choice(special if special and rng.random() < 0.6 else cands)
+    h["var"] = A["var"]
+    if rng.random() < 0.7:
+        # declare the enclosing group AFTER everything nested in it: the clash is then found from its side, searching
+        # downwards through all its branches (declaration order is free)
+        s["groups"].remove(A)
+        s["groups"].append(A)
+    return "nested thread group reuses the variable name of an enclosing group (%d level%s up)" % (depth + 1, "" if depth == 0 else "s")
 
 
 @mutator("C06")
